@@ -42,13 +42,20 @@ def corpus(res, spec):
 
 def search(res, spec, rng):
     """4.3: after a broken obligation/correspondence, look harder for an input on which the property itself
-    fails on the implementation (more seeds, thorough sizes)."""
-    for k in range(3):
-        import random
+    fails on the implementation: further seeds of the property's own generators, under a time budget."""
+    import random
+    import time
+    budget = 60 if res.tier == "quick" else 600
+    t0 = time.time()
+    k = 0
+    while time.time() - t0 < budget and k < (4 if res.tier == "quick" else 12):
         r2 = random.Random("search/%s/%d/%d" % (res.pid, res.seed, k))
+        k += 1
         for scope in spec["scopes"]:
+            if time.time() - t0 > budget:
+                break
             try:
-                _, fails = scope(res, res.pid, r2, "thorough" if k else "quick")
+                _, fails = scope(res, res.pid, r2, "quick")
             except Infra:
                 raise
             except Exception as e:  # noqa
@@ -57,6 +64,7 @@ def search(res, spec, rng):
             if fails:
                 res.violations.extend(fails)
                 return
+    res.notes.append("search: %d extra rounds, %.0fs, no failing input" % (k, time.time() - t0))
 
 
 def reconfirm(res, spec):
@@ -129,8 +137,8 @@ def ip_prop(mod, scopes, extra_mods=()):
 
 PROPS = {
     "C01": ip_prop("C01", [ip_checks.core_scope, ip_checks.file_scope, ip_checks.big_history]),
-    "C02": ip_prop("C02", [ip_checks.core_scope, ip_checks.file_scope, ip_checks.cli_scope, ip_checks.big_history]),
-    "C03": ip_prop("C03", [ip_checks.core_scope, ip_checks.file_scope, ip_checks.big_history]),
+    "C02": ip_prop("C02", [ip_checks.core_scope, ip_checks.file_scope, ip_checks.cli_scope, ip_checks.big_history, ip_checks.process_history_scope]),
+    "C03": ip_prop("C03", [ip_checks.core_scope, ip_checks.file_scope, ip_checks.big_history, ip_checks.process_history_scope]),
     "C04": ip_prop("C04", [ip_checks.core_scope, ip_checks.file_scope, ip_checks.cli_scope, ip_checks.big_history]),
     "C17": ip_prop("C17", [ip_checks.core_scope, ip_checks.cli_scope, ip_checks.big_history]),
 }
